@@ -1,5 +1,5 @@
 \* exhaustive: 2 table variants x 2 suffixes x 3^4 compositions; every law for every case
-CONSTANTS NG = 2  NGam = 2  Variants = {1, 2}
+CONSTANTS NG = 3  NGam = 2  Variants = {1, 2}
 CONSTANT DensSeq <- DensQuick
 CONSTANT PairSet <- PairQuick
 INIT Init
